@@ -19,7 +19,7 @@ def run(rep, tier):
     ]
     tabs = sc.tables(rep, tier, "c07", "bc")
     tabs = [t for t in tabs if t["nc"] >= 3 and t["nr"] - t["nc"] >= 3 and t["nr"] % 2 == 1]
-    sc.conformance(rep, tier, tabs, "xsmoother", 200, "xsmoother", threads=(1, 3, 16) if tier == "thorough" else (1, 3))
+    sc.conformance(rep, tier, tabs, "xsmoother", 200, "xsmoother", threads=(1, 3, 16) if tier == "thorough" else (1, 3), scales=(1.0, 1e-9, 1e7))
     try:
         import realgeom
         realgeom.run(rep, tier, "xsmoother")
